@@ -323,6 +323,8 @@ impl ISocket for ReqSocket {
     match command {
       Command::Stop => {
         self.ingress_engine.close();
+        // a send() waiting for a first peer must not outlive the socket
+        self.load_balancer.deactivate();
         self.reply_available_notifier.notify_waiters();
       }
       _ => return Ok(false),
